@@ -587,7 +587,7 @@ theorem hkAnnounce_hk (o : Oracle) (c : Ctx) (now : Int) (h : HkInv c) : HkInv (
 theorem reconnectToPeers_hk (env : CryptoEnv) (o : Oracle) (c : Ctx) (now : Int) (h : HkInv c) : HkInv (reconnectToPeers env o c now) := by
   unfold reconnectToPeers
   simp only []
-  have h1 : HkInv (c.node.reconnect.foldl (fun c e => if e.next > now then c else connect env o c e.resolved) c) := by
+  have h1 : HkInv (c.node.reconnect.foldl (fun c e => if Generated.reconnectNotDue e.next now then c else connect env o c e.resolved) c) := by
     apply foldl_inv HkInv _ _ _ _ h
     intro c e hc
     split
